@@ -144,7 +144,7 @@ func (l *list[T]) MoveBefore(element, position ListElement[T]) {
 		panic("unsupported ListElement type")
 	}
 
-	positionTyped, ok := element.(*listElement[T])
+	positionTyped, ok := position.(*listElement[T])
 	if !ok {
 		panic("unsupported ListElement type")
 	}
@@ -163,7 +163,7 @@ func (l *list[T]) MoveAfter(element, position ListElement[T]) {
 		panic("unsupported ListElement type")
 	}
 
-	positionTyped, ok := element.(*listElement[T])
+	positionTyped, ok := position.(*listElement[T])
 	if !ok {
 		panic("unsupported ListElement type")
 	}
